@@ -34,6 +34,9 @@ I = z3.IntSort()
 B = z3.BoolSort()
 
 
+_KEEP = []
+
+
 class NumpyMixin:
     # ------------------------------------------------------------ array access
     def arr_term(self, st, ref):
@@ -187,7 +190,11 @@ class NumpyMixin:
         if isinstance(idx, str):
             raise Unsupported("field access on plain array", node)
         eff = self.index_ok(st, h.n, idx, fr, node)
-        return self.arr_get(st, base, eff)
+        r = self.arr_get(st, base, eff)
+        if h.unit == "str" and isinstance(r, z3.ExprRef):
+            st.ghost["strterms"] = frozenset(st.ghost.get("strterms", frozenset()) | {r.get_id()})
+            _KEEP.append(r)
+        return r
 
     def arr2_subscript(self, base, h, idx, st, fr, node):
         if isinstance(idx, tuple) and len(idx) == 2 and not any(isinstance(x, (SliceV, Ref)) or x is None for x in idx):
